@@ -70,7 +70,7 @@ theorem exit_eq_spec (c : Cfg) (all ran : List Item) (hs : Sched c all ran) (hw 
       subst this
       obtain ⟨h1, h2⟩ := filesLoop_ok c ran {} hw
       rw [main_files_seq c ran hm hp hok, h1]
-      simp only [Bool.false_eq_true, if_false]
+      simp only
       apply exit_core
       · simp [specMatched, hm, h2]
       · intro hq
@@ -83,7 +83,7 @@ theorem exit_eq_spec (c : Cfg) (all ran : List Item) (hs : Sched c all ran) (hw 
       obtain ⟨f1, f2⟩ := filesParWalk_flags c hm ran {}
       have hpt := printThread_ok _ (filesParWalk_sent_ok c ran {} hwr)
       rw [main_files_par c ran hm hp hok, hpt]
-      simp only [reduceCtorEq, if_false]
+      simp only
       cases hq : (c.qam && ran.any isFile) with
       | true =>
         simp only [Bool.and_eq_true] at hq
@@ -197,42 +197,17 @@ theorem all_results_produced (c : Cfg) (ran : List Item) (hq : c.qam = false) (h
 
 /-! ### The consumer closes the pipe -/
 
-/-- Full statement: whenever a write to stdout fails with EPIPE the run exits 0 and every line on
-stderr is owed to a faulty entry (nothing is said about the pipe).  `raw` pairs every entry with
-"goes through `--pre`"; the EPIPE is located on the raw results, the run sees `raw.map seen`. -/
-def C15_pipe_full : Prop :=
-  ∀ (c : Cfg) (raw : List (Bool × Item)), c.setupOk = true → c.matchesPossible = true →
-    pipeHit c (raw.map (·.2)) = true →
-    (main c .ok (raw.map seen)).exit = 0 ∧
-    ∀ d ∈ (main c .ok (raw.map seen)).diags, d ∈ (raw.map (·.2)).filterMap (diagOf c)
+/-- `search_preprocessor` keeps the kind of the error it re-wraps (the revert of ea0b57f is a mutant). -/
+theorem preprocessor_keeps_kind (x : Bool × Item) : seen x = x.2 := by
+  obtain ⟨pre, it⟩ := x
+  cases pre <;> cases it <;> rfl
 
-/-- It fails on the current tree, twice.
-(a) `rg --files missing dir | head -c0` exits 2: `files` leaves its loop with `break` and `run` then
-consults `errored` (likewise `files_parallel`), whereas `search`/`search_parallel` hand the broken pipe to
-`main`, which exits 0.
-(b) `rg -j1 --pre cat x big | head -c0` exits 2 with "preprocessor command failed: … Broken pipe":
-`search_preprocessor` re-wraps the printer's `BrokenPipe` as `ErrorKind::Other`, so `search` treats it as a
-file error and carries on. -/
-theorem C15_pipe_full_fails : ¬ C15_pipe_full := by
-  intro h
-  have := (h { mode := .files } [(false, .walkErr), (false, .file 0 (.ok false) .pipe)] rfl rfl (by decide)).1
-  revert this
-  decide
-
-/-- Witness (b) on its own: with `--pre`, a pipe closed during the first file gives status 2 and a
-diagnostic for that file. -/
-theorem C15_pipe_pre_fails :
-    pipeHit {} ([(true, Item.file 0 .pipe .ok)].map (·.2)) = true ∧
-    main {} .ok ([(true, Item.file 0 .pipe .ok)].map seen) = ⟨2, [.file 0], []⟩ := by
-  decide
-
-/-- **Proved part**.  Guards: (i) the EPIPE reaches the driver loop with its kind intact — `ran` is what
-the loop sees, so for a `--pre` file this excludes the re-wrapped case (b) above; (ii) `pipeGuard`:
-searching, or `--quiet`, or no fault was reported (excludes (a)).  Then a broken pipe at any write — any
-entry, any position, single- or multi-threaded, any schedule — gives exit status 0 and no diagnostic
-about it. -/
+/-- **A broken pipe at any write gives exit status 0 and no diagnostic about it** — whichever entry is
+being printed, at any position, in all four drivers (single- and multi-threaded, any schedule of the
+parallel ones), whatever faults were reported before, with or without `--pre`.  Every line on stderr is
+owed to a faulty entry. -/
 theorem C15_pipe (c : Cfg) (ran : List Item) (hok : c.setupOk = true) (hmp : c.matchesPossible = true)
-    (hpipe : pipeHit c ran = true) (hg : pipeGuard c ran = true) :
+    (hpipe : pipeHit c ran = true) :
     (main c .ok ran).exit = 0 ∧ ∀ d ∈ (main c .ok ran).diags, d ∈ ran.filterMap (diagOf c) := by
   cases hm : c.mode with
   | search =>
@@ -252,52 +227,38 @@ theorem C15_pipe (c : Cfg) (ran : List Item) (hok : c.setupOk = true) (hmp : c.m
       · simp at h
       · exact h
   | files =>
-    have hg' : c.quiet = true ∨ ran.any (isFault c) = false := by
-      simpa [pipeGuard, hm] using hg
     cases hp : c.parallel with
     | false =>
       have hl : filesPipe c ran = true := by simpa [pipeHit, hm, hp] using hpipe
-      obtain ⟨h1, h2, h3⟩ := filesLoop_pipe c ran {} hl
-      rw [main_files_seq c _ hm hp hok, h1]
-      simp only [Bool.false_eq_true, if_false]
-      refine ⟨?_, fun d hd => ?_⟩
-      · rw [h2]
-        rcases hg' with hq | hf
-        · rw [hq]; cases (filesLoop c ran {}).1.errored <;> decide
-        · cases he : (filesLoop c ran {}).1.errored with
-          | false => cases c.quiet <;> decide
-          | true =>
-            rcases h3 he with h | h
-            · simp at h
-            · rw [hf] at h; simp at h
-      · rcases filesLoop_diags c ran {} d hd with h | h
-        · simp at h
-        · exact h
+      rw [main_files_seq c _ hm hp hok, filesLoop_pipe c ran {} hl]
+      refine ⟨rfl, fun d hd => ?_⟩
+      rcases filesLoop_diags c ran {} d hd with h | h
+      · simp at h
+      · exact h
     | true =>
       have hl : (printThread (filesParWalk c ran {}).2).2 = .pipe := by simpa [pipeHit, hm, hp] using hpipe
-      have hne := printThread_pipe_ne_nil _ hl
-      have hmt := filesParWalk_sent_matched c ran {} hne
-      obtain ⟨_, f2⟩ := filesParWalk_flags c hm ran {}
       rw [main_files_par c _ hm hp hok, hl]
-      simp only [reduceCtorEq, if_false]
-      refine ⟨?_, fun d hd => ?_⟩
-      · rw [hmt, f2]
-        rcases hg' with hq | hf
-        · rw [hq]; cases ({} : St).errored || ran.any (isFault c) <;> decide
-        · rw [hf]; cases c.quiet <;> decide
-      · rcases filesParWalk_diags c ran {} d hd with h | h
-        · simp at h
-        · exact h
+      refine ⟨rfl, fun d hd => ?_⟩
+      rcases filesParWalk_diags c ran {} d hd with h | h
+      · simp at h
+      · exact h
+
+/-- The same for the entries as `search` sees them when files go through `--pre`. -/
+theorem C15_pipe_pre (c : Cfg) (raw : List (Bool × Item)) (hok : c.setupOk = true)
+    (hmp : c.matchesPossible = true) (hpipe : pipeHit c (raw.map (·.2)) = true) :
+    (main c .ok (raw.map seen)).exit = 0 ∧
+    ∀ d ∈ (main c .ok (raw.map seen)).diags, d ∈ (raw.map (·.2)).filterMap (diagOf c) := by
+  have : raw.map seen = raw.map (·.2) := List.map_congr_left (fun x _ => preprocessor_keeps_kind x)
+  rw [this]
+  exact C15_pipe c _ hok hmp hpipe
 
 /-- Non-vacuity of `C15_pipe`: the pipe closes while the second of three files is being printed, after a
-fault was reported — single-threaded search, parallel search, and `--files` without fault. -/
+fault was reported — single-threaded search, parallel search, `--files` (both drivers). -/
 example :
-    (pipeHit {} [.walkErr, .file 0 (.ok true) .ok, .file 1 .pipe .ok, .file 2 (.ok true) .ok] = true ∧
-      pipeGuard {} [.walkErr, .file 0 (.ok true) .ok, .file 1 .pipe .ok, .file 2 (.ok true) .ok] = true) ∧
-    (pipeHit { parallel := true } [.file 2 .err .ok, .file 0 (.ok false) .pipe, .file 1 (.ok true) .ok] = true ∧
-      pipeGuard { parallel := true } [.file 2 .err .ok, .file 0 (.ok false) .pipe, .file 1 (.ok true) .ok] = true) ∧
-    (pipeHit { mode := .files } [.skip, .file 0 (.ok false) .ok, .file 1 (.ok false) .pipe] = true ∧
-      pipeGuard { mode := .files } [.skip, .file 0 (.ok false) .ok, .file 1 (.ok false) .pipe] = true) := by
+    pipeHit {} [.walkErr, .file 0 (.ok true) .ok, .file 1 .pipe .ok, .file 2 (.ok true) .ok] = true ∧
+    pipeHit { parallel := true } [.file 2 .err .ok, .file 0 (.ok false) .pipe, .file 1 (.ok true) .ok] = true ∧
+    pipeHit { mode := .files } [.walkErr, .file 0 (.ok false) .ok, .file 1 (.ok false) .pipe] = true ∧
+    pipeHit { mode := .files, parallel := true } [.walkErr, .file 0 (.ok false) .ok, .file 1 (.ok false) .pipe] = true := by
   decide
 
 /-- Non-vacuity of `exit_table`: an admissible parallel schedule that stops early. -/
